@@ -80,6 +80,7 @@ type Step struct {
 	Start  string `json:"start,omitempty"` // dump: zero|current|stale|bogus  (CAS of Key in Coll)
 	Plus   uint64 `json:"plus,omitempty"`  // dump: added to the resolved start CAS
 	KeysOnly bool `json:"keysonly,omitempty"` // dump: a KeysOnly feed
+	Fresh  bool   `json:"fresh,omitempty"`    // purge: through a handle opened for the purpose, which has opened no collection
 	Nested *KOp   `json:"nested,omitempty"` // kv (Update, WriteUpdateWithXattrs, WriteSubDoc, SubdocInsert): another call on the same key,
 	// made through another handle inside the window between the call's read and its compare-and-swap write
 }
@@ -101,13 +102,14 @@ type ViewParams struct {
 }
 
 // the family of map functions (their Gallina twins: Store.mapfn)
-const numMaps = 8 // map function ids: mapSources, then the same with a _count reduce
+const numMaps = 10 // map function ids: mapSources, then the same with a _count reduce
 
 var mapSources = []string{
 	`function(doc, meta) { if (doc !== null && typeof doc === "object" && typeof doc.a === "number") emit(doc.a, meta.id); }`,
 	`function(doc, meta) { emit(meta.id, null); }`,
 	`function(doc, meta) { if (meta.xattrs && meta.xattrs._sync !== undefined) emit(meta.id, meta.xattrs._sync); }`,
 	`function(doc, meta) { if (doc !== null && typeof doc === "object" && typeof doc.a === "number") { emit([doc.a, 1], null); emit([doc.a, meta.id], null); } }`,
+	`function(doc, meta) { if (doc !== null && typeof doc === "object" && typeof doc.s === "string") emit(doc.s, null); }`,
 }
 
 type sgbucketDesignDoc = sgbucket.DesignDoc
@@ -115,7 +117,7 @@ type sgbucketDesignDoc = sgbucket.DesignDoc
 func mkDesignDoc(views []ViewDef) *sgbucket.DesignDoc {
 	dd := sgbucket.DesignDoc{Language: "javascript", Views: sgbucket.ViewMap{}}
 	for _, v := range views {
-		// views 4..7 are views 0..3 with the reduce function _count
+		// views 5..9 are views 0..4 with the reduce function _count
 		vd := sgbucket.ViewDef{Map: mapSources[v.Map%len(mapSources)]}
 		if v.Map >= len(mapSources) {
 			vd.Reduce = "_count"
@@ -255,6 +257,7 @@ type kvRun struct {
 	manualExpiry int32
 	url      string
 	win      *windowRun
+	fullDefault []sgbucket.FeedEvent // every event the full live feed of the default collection received
 }
 
 // A call made inside another call's read-to-write window.  The enclosing call is a compare-and-swap loop,
@@ -366,6 +369,9 @@ func (k *kvRun) startFeed(name string) error {
 	return c.StartDCPFeed(ctxBg, args, func(ev sgbucket.FeedEvent) bool {
 		lf.mu.Lock()
 		lf.events = append(lf.events, ev)
+		if name == "_default._default" {
+			k.fullDefault = append(k.fullDefault, ev)
+		}
 		lf.mu.Unlock()
 		return true
 	}, nil)
@@ -1039,11 +1045,11 @@ func (k *kvRun) doKv(st Step) (opT Term, respT Term, err error) {
 		if cb.Kind == "fail" {
 			cbT = C("WUFail")
 		} else {
-			cbT = C("WUResult", C("mkWu", optStr(cb.Val), xsTerm(cb.Xs), delsTerm(cb.Dels), B(cb.Tomb), optExpTerm(cb.NewExp), macrosTerm(cb.Spec)))
+			cbT = C("WUResult", C("mkWu", optStr(cb.Val), xsTerm(cb.Xs), delsTerm(cb.Dels), B(cb.Tomb), optExpTerm(cb.NewExp), macrosTerm(cb.Spec), B(op.Preserve)))
 		}
 		opT = C("KWriteUpdateWithXattrs", cbT, macrosTerm(op.Macros))
 		calls := 0
-		co, e := c.WriteUpdateWithXattrs(ctxBg, key, kvXnames, 0, nil, mutateOpts(false, op.Macros),
+		co, e := c.WriteUpdateWithXattrs(ctxBg, key, kvXnames, 0, nil, mutateOpts(op.Preserve, op.Macros),
 			func(doc []byte, xattrs map[string][]byte, cas uint64) (sgbucket.UpdatedDoc, error) {
 				calls++
 				k.windowPass()
@@ -1197,12 +1203,20 @@ func execKvInner(in kvInput, scratch string, prog *kvProgress) (Case, error) {
 			_ = k.handles[0].CloseAndDelete(ctxBg)
 		}
 	}()
-	// a keys-only feed registered BEFORE the full feed of the default collection: what it receives is not
-	// compared, but its presence must not change what the full feed receives
+	// a keys-only feed registered BEFORE the full feed of the default collection: its presence must not change
+	// what the full feed receives, and what it receives must be what the full feed receives minus the values
+	// (compared at the end of a history without a reopen, which ends it)
 	koTerm := make(chan bool)
+	var koMu sync.Mutex
+	var koEvents []sgbucket.FeedEvent
 	if dc, err := k.coll(0, "_default._default"); err == nil {
 		_ = dc.StartDCPFeed(ctxBg, sgbucket.FeedArguments{ID: "keysonly", Backfill: sgbucket.FeedNoBackfill, KeysOnly: true, Terminator: koTerm},
-			func(sgbucket.FeedEvent) bool { return true }, nil)
+			func(ev sgbucket.FeedEvent) bool {
+				koMu.Lock()
+				koEvents = append(koEvents, ev)
+				koMu.Unlock()
+				return true
+			}, nil)
 	}
 	defer close(koTerm)
 	if err := k.startFeed("_default._default"); err != nil {
@@ -1301,7 +1315,18 @@ func execKvInner(in kvInput, scratch string, prog *kvProgress) (Case, error) {
 			k.cells[pre+"|"+st.Op.Kind+"|"+st.Op.CasMode+"|"+out] = true
 		case "purge":
 			opT = C("SPurge")
-			n, e := k.handles[st.Handle].PurgeTombstones()
+			ph := k.handles[st.Handle]
+			if st.Fresh {
+				fh, err := rosmar.OpenBucket(k.url, k.name, rosmar.CreateOrOpen)
+				if err != nil {
+					return c, fmt.Errorf("open for purge: %w", err)
+				}
+				ph = fh
+			}
+			n, e := ph.PurgeTombstones()
+			if st.Fresh {
+				ph.Close(ctxBg)
+			}
 			if e != nil {
 				respT = rErr(e)
 			} else {
@@ -1525,6 +1550,39 @@ func execKvInner(in kvInput, scratch string, prog *kvProgress) (Case, error) {
 		prog.mu.Lock()
 		prog.steps, prog.obs = steps, obs
 		prog.mu.Unlock()
+	}
+	// the keys-only feed against the full feed of the same collection
+	reopened := false
+	for _, st := range in.Ops {
+		if st.Kind == "reopen" {
+			reopened = true
+		}
+	}
+	if !reopened && c.Discard == "" {
+		deadline := time.Now().Add(2 * time.Second)
+		for time.Now().Before(deadline) {
+			koMu.Lock()
+			n := len(koEvents)
+			koMu.Unlock()
+			if n >= len(k.fullDefault) {
+				break
+			}
+			time.Sleep(200 * time.Microsecond)
+		}
+		koMu.Lock()
+		if len(koEvents) != len(k.fullDefault) {
+			c.Fatal = fmt.Sprintf("the KeysOnly live feed received %d events, the full feed of the same collection %d", len(koEvents), len(k.fullDefault))
+		} else {
+			for j, a := range koEvents {
+				b := k.fullDefault[j]
+				if a.Opcode != b.Opcode || string(a.Key) != string(b.Key) || a.Cas != b.Cas || a.Expiry != b.Expiry || a.RevNo != b.RevNo || a.CollectionID != b.CollectionID || len(a.Value) != 0 {
+					c.Fatal = fmt.Sprintf("the KeysOnly live feed disagrees with the full feed on event %d of key %s (opcode %v/%v cas %d/%d expiry %d/%d revno %d/%d, value length %d)",
+						j, a.Key, a.Opcode, b.Opcode, a.Cas, b.Cas, a.Expiry, b.Expiry, a.RevNo, b.RevNo, len(a.Value))
+					break
+				}
+			}
+		}
+		koMu.Unlock()
 	}
 	// grace period: anything delivered late or twice?
 	time.Sleep(2 * time.Millisecond)
